@@ -174,6 +174,7 @@ func (db *DB) processFollowers(stop <-chan interface{}) {
 				}
 				spec := &followSpec{followerID: f.FollowerID, offset: offset}
 				specs[f.FollowerID] = spec
+				vhook("ldr.joined", db, f.FollowerID, t.Name, offset, f.EarliestOffset)
 				db.log.Debugf("%v following %v starting at %v", f.FollowerID, t.Name, f.EarliestOffset)
 			}
 		}
@@ -344,6 +345,7 @@ func (db *DB) processFollowers(stop <-chan interface{}) {
 				}
 			}
 
+			vhook("ldr.entry", db, entry.offset, entry.data, includedFollowers)
 			for _, included := range includedFollowers {
 				f := followers[included]
 				if f.failed() {
@@ -641,6 +643,7 @@ func (db *DB) followLeaders(stream string, newSubscriber chan *tableWithOffsets,
 	// Wait a little while for database to initialize
 	// TODO: make this more rigorous, perhaps using eventual or something
 	timer := time.NewTimer(30 * time.Second)
+	vhook("fol.timer", db, timer)
 	var tables []*table
 	var offsets []common.OffsetsBySource
 	partitions := make(map[string]*common.Partition)
@@ -676,6 +679,7 @@ waitForTables:
 			})
 			// Got some tables, don't wait as long this time
 			timer.Reset(5 * time.Second)
+			vhook("fol.timer", db, timer)
 		}
 	}
 
